@@ -10,7 +10,7 @@ import (
 
 // strLitsInFunc collects, in source order, the string literals appearing in the
 // body of a function: the formats from which compile() builds task names are
-// written inline ("inv%d", "_", "%s_shuffle", "%s%d").
+// written inline ("inv%d", "_", "inv%d_%s_shuffle", "%s%d").
 func strLitsInFunc(repo string, e *emitter, dir, fn, coq string) {
 	p, err := loadPkg(repo, dir)
 	if err != nil {
@@ -117,7 +117,7 @@ func compositeFieldsInFunc(repo string, e *emitter, dir, fn, typ, coq string) {
 
 func init() {
 	specs = append(specs, spec{"C08_params.v", func(repo string, e *emitter) {
-		// task name formats and separators of (*compiler).compile
+		// task name formats ("inv%d", "_", "inv%d_%s_shuffle") and separators of (*compiler).compile
 		strLitsInFunc(repo, e, "exec", "compiler.compile", "compile_string_literals")
 		// "%s%d" of (taskNamer).New, and its `c == 0`
 		strLitsInFunc(repo, e, "exec", "taskNamer.New", "namer_string_literals")
